@@ -156,10 +156,18 @@ T_UntilEnd ==
                             /\ idx' = NExp(P)
                             /\ J11 => \/ E.eeds = EEDs(ustart, idx)
                                       \/ E.eeds = EEDs(ustart, NExp(P))
-                            /\ eomSent /\ sentTo = R.total
-         [] ucb = "run"  -> \* nil callback: consume everything up to and including the final DONE
+                            \* (a response that ends in the server's own final DONE is complete with that
+                            \* package; its end-of-message packet may still be on its way)
+                            /\ (eomSent \/ ~NeedSynth(P)) /\ sentTo = R.total
+         [] ucb = "run" /\ E.err = "noready" ->
+                            \* a call with wait = false that found nothing queued: nothing was consumed
+                            /\ E.ret = "nil" /\ idx' = idx /\ idx = ustart
+         [] ucb = "run" /\ E.err # "noready" ->
+                            \* nil callback: consume everything up to and including the final DONE
                             /\ E.ret = "nil" /\ E.err \in {"nil", "eof"} /\ idx' = NExp(P)
-                            /\ eomSent /\ sentTo = R.total
+                            \* (a response that ends in the server's own final DONE is complete with that
+                            \* package; its end-of-message packet may still be on its way)
+                            /\ (eomSent \/ ~NeedSynth(P)) /\ sentTo = R.total
     /\ ucb' = "none"
     /\ UNCHANGED <<resps, refs, cur, mode, sentTo, eomSent, nh, ne, hookPos, envPos, ps, active, fail, ustart, uidx>>
 
